@@ -60,8 +60,8 @@ public:
         { return _savesourcemap; }
 
     #if INOVESA_USE_OPENGL == 1
-    inline auto getOpenGLVersion() const
-        { return _glversion; }
+    inline uint_fast8_t getOpenGLVersion() const
+        { return static_cast<uint_fast8_t>(_glversion); }
 
     inline auto showPhaseSpace() const
         { return _showphasespace; }
@@ -228,7 +228,8 @@ private: // program parameters
 
     std::string _configfile;
 
-    uint_fast8_t _glversion;
+    // not an 8 bit type: program_options would read the value as one character
+    uint32_t _glversion;
 
     bool _verbose;
 
